@@ -139,11 +139,16 @@ class FakeSnowflakeConnection:
         cursor_class: type[SnowflakeCursor] = SnowflakeCursor,
         **kwargs: dict[str, Any],
     ) -> Iterable[FakeSnowflakeCursor]:
-        cursors = [
-            self.cursor(cursor_class).execute(e.sql(dialect="snowflake"))
-            for e in sqlglot.parse(sql_text, read="snowflake")
-            if e and not isinstance(e, exp.Semicolon)  # ignore comments
-        ]
+        try:
+            statements = [
+                e.sql(dialect="snowflake")
+                for e in sqlglot.parse(sql_text, read="snowflake")
+                if e and not isinstance(e, exp.Semicolon)  # ignore comments
+            ]
+        except sqlglot.errors.ParseError:
+            # a statement that doesn't parse fails when its turn comes, with the earlier statements applied
+            statements = _split_statements(sql_text)
+        cursors = [self.cursor(cursor_class).execute(statement) for statement in statements]
         return cursors if return_cursors else []
 
     def is_closed(self) -> bool:
@@ -151,3 +156,22 @@ class FakeSnowflakeConnection:
 
     def rollback(self) -> None:
         self.cursor().execute("ROLLBACK")
+
+
+def _split_statements(sql_text: str) -> list[str]:
+    """Split sql_text at the semicolons between statements, without parsing the statements."""
+    statements: list[str] = []
+    start = None
+    end = 0
+    for token in sqlglot.tokenize(sql_text, read="snowflake"):
+        if token.token_type == sqlglot.TokenType.SEMICOLON:
+            if start is not None:
+                statements.append(sql_text[start:end])
+            start = None
+        else:
+            start = token.start if start is None else start
+            end = token.end + 1
+    if start is not None:
+        statements.append(sql_text[start:end])
+    return statements
+
